@@ -109,9 +109,34 @@ func unwrap(v interface{}) interface{} {
 	return i.Interface()
 }
 
+// prepareVisitedKey is the context key under which PrepareQuery remembers which
+// (type, selection set) pairs it has already checked during one validation.
+type prepareVisitedKey struct{}
+
+type prepareVisit struct {
+	typ          Type
+	selectionSet *SelectionSet
+}
+
 // PrepareQuery checks that the given selectionSet matches the schema typ, and
 // parses the args in selectionSet
 func PrepareQuery(ctx context.Context, typ Type, selectionSet *SelectionSet) error {
+	// A selection set shared by several spreads of one fragment only needs to be
+	// checked once per type; without this, nested repeated spreads make validation
+	// exponential in the size of the query.
+	visited, ok := ctx.Value(prepareVisitedKey{}).(map[prepareVisit]struct{})
+	if !ok {
+		visited = make(map[prepareVisit]struct{})
+		ctx = context.WithValue(ctx, prepareVisitedKey{}, visited)
+	}
+	if selectionSet != nil {
+		visit := prepareVisit{typ: typ, selectionSet: selectionSet}
+		if _, done := visited[visit]; done {
+			return nil
+		}
+		visited[visit] = struct{}{}
+	}
+
 	switch typ := typ.(type) {
 	case *Scalar:
 		if selectionSet != nil {
